@@ -401,6 +401,9 @@ def run(rec, tier, seed):
         phi = 0.6180339887498949
         GAMMAS = GAMMAS + [round(-3 + ((seed * phi * j) % 1.0) * 8, 3) for j in (1, 2)]
         US = US + [round(-1.5 + ((seed * phi * (j + 2)) % 1.0) * 4, 3) for j in (1, 2)]
+    if tier == 'thorough':
+        GAMMAS = GAMMAS + [-100.0, -10.0, -0.1, 0.1, 0.25, 2.0, 10.0, 100.0, 700.0, -700.0]
+        US = US + [-50.0, -1.0, 1e-6, 1.0, 10.0, 50.0, 700.0]
     sig = SIGMAS
     with warnings.catch_warnings():
         warnings.simplefilter('ignore')
